@@ -60,6 +60,10 @@ func (p *rPlan) id() string {
 		return fmt.Sprintf("%s:random:%s", p.Ep, digestJSON(p.Raw))
 	}
 
+	if p.Template == "copy_growth" {
+		return fmt.Sprintf("%s:copy_growth:%d", p.Ep, p.Pos)
+	}
+
 	if len(p.Chain) > 0 {
 		s := p.Ep + ":alias_chain"
 		for _, c := range p.Chain {
@@ -644,6 +648,12 @@ func (e *robustEnv) call(ep, template string, input interface{}) (outcome string
 			return "err"
 		}
 
+		if template == "copy_growth" {
+			_, err := doccomposer.New().ApplyPatches(document.Document{}, []patch.Patch{p})
+
+			return res(err)
+		}
+
 		if template == "alias_chain" {
 			d := document.Document{"other": map[string]interface{}{"a": 1, "x": map[string]interface{}{"z": 1}, "arr": []interface{}{map[string]interface{}{"k": 1}, 2}}}
 			_, err := doccomposer.New().ApplyPatches(d, []patch.Patch{p})
@@ -828,6 +838,19 @@ func (e *robustEnv) concreteInput(p *rPlan) interface{} {
 		}
 
 		return string(p.Raw)
+	}
+
+	if p.Template == "copy_growth" {
+		ops := []map[string]interface{}{{"op": "add", "path": "/a", "value": map[string]interface{}{"x": 1}}, {"op": "add", "path": "/b", "value": map[string]interface{}{"y": 1}}}
+		for i := 0; i < p.Pos; i++ {
+			if i%2 == 0 {
+				ops = append(ops, map[string]interface{}{"op": "copy", "from": "/a", "path": fmt.Sprintf("/b/k%d", i)})
+			} else {
+				ops = append(ops, map[string]interface{}{"op": "copy", "from": "/b", "path": fmt.Sprintf("/a/k%d", i)})
+			}
+		}
+
+		return jsonPatch(ops...)
 	}
 
 	if p.Template == "alias_chain" {
